@@ -320,7 +320,11 @@ class Result:
         log("  -> " + what)
 
     def known(self, what):
-        if what not in self.known_hits:
+        """one KNOWN-FINDING line per listed finding (the id is the text before the first ':'); further hits are counted"""
+        kid = what.split(":")[0]
+        self.extra.setdefault("known_finding_hits", {})
+        self.extra["known_finding_hits"][kid] = self.extra["known_finding_hits"].get(kid, 0) + 1
+        if kid not in [k.split(":")[0] for k in self.known_hits]:
             self.known_hits.append(what)
             print("KNOWN-FINDING: property=%s %s" % (self.pid, what), flush=True)
 
